@@ -6,11 +6,12 @@
    numbered  size-of-the-table + 1 ;  numbers beyond Cap (999 in the code: "E1000" is no 4-character id) fall back to
    one fixed id (E99A / A99A / C99A) - that is the pseudonym capacity the property statement excludes.
 
-   TLC checks on all id sequences within the bounds: as long as every table holds at most Cap entries, each observed
-   step satisfies Plugins!MapStep (functional and injective per name space), and the tables only grow.            *)
+   TLC checks on all id sequences within the bounds (small number system: base Base, Digits digits kept, capacity
+   Base^Digits - 1): every step satisfies Plugins!MapStepG - functional and injective per name space within the capacity,
+   the cut-off pseudonym of the id numbered by the leading digits past it - and the tables only grow.              *)
 EXTENDS Integers, Sequences, FiniteSets, TLC
 
-CONSTANTS Ecus, Apids, Ctids, Cap, MaxMsgs
+CONSTANTS Ecus, Apids, Ctids, Base, Digits, MaxMsgs
 
 P == INSTANCE Plugins WITH MaxChain <- 0, MaxIn <- 0, chain <- <<>>, ins <- <<>>, i <- 1, st <- 1,
                            cur <- [ch |-> {}, ext |-> FALSE], outs <- <<>>, done <- FALSE
@@ -18,35 +19,36 @@ P == INSTANCE Plugins WITH MaxChain <- 0, MaxIn <- 0, chain <- <<>>, ins <- <<>>
 VARIABLES emap, amap, cmap, n, ok
 vars == <<emap, amap, cmap, n, ok>>
 
-Overflow == 0
-Fresh(map, ns) == LET k == Cardinality({p \in map : p[1] = ns}) + 1 IN IF k <= Cap THEN k ELSE Overflow
-Val(map, ns, key) == IF \E p \in map : p[1] = ns /\ p[2] = key
+\* the code: pseudonym text = letter + decimal number of (table size + 1), cut to the id length.  Here: numbers in base
+\* Base with Digits digits kept, the pseudonym is represented by the number that remains after cutting.
+Fresh(map, ns) == P!Leading(Cardinality(P!InNs(map, ns)) + 1, Base, Digits)
+Val(map, ns, key) == IF P!Known(map, ns, key)
                      THEN (CHOOSE p \in map : p[1] = ns /\ p[2] = key)[3]
                      ELSE Fresh(map, ns)
-WithinCap(map) == \A ns \in {p[1] : p \in map} : Cardinality({p \in map : p[1] = ns}) <= Cap
+WithinCap(map) == \A ns \in {p[1] : p \in map} : Cardinality(P!InNs(map, ns)) <= P!CapOf(Base, Digits)
 
 Init == emap = {} /\ amap = {} /\ cmap = {} /\ n = 0 /\ ok = TRUE
 
 Msg(e, a, c) == LET e2 == Val(emap, 0, e)
                     a2 == Val(amap, e2, a)
                     c2 == Val(cmap, <<e2, a>>, c)
-                    em == P!MapAdd(emap, 0, e, e2)
-                    am == P!MapAdd(amap, e2, a, a2)
-                    cm == P!MapAdd(cmap, <<e2, a>>, c, c2)
                 IN /\ n < MaxMsgs /\ n' = n + 1
-                   /\ emap' = em /\ amap' = am /\ cmap' = cm
-                   /\ ok' = (ok /\ ((WithinCap(em) /\ WithinCap(am) /\ WithinCap(cm)) =>
-                                      /\ P!MapStep(emap, 0, e, e2)
-                                      /\ P!MapStep(amap, e2, a, a2)
-                                      /\ P!MapStep(cmap, <<e2, a>>, c, c2)))
+                   /\ emap' = P!MapAdd(emap, 0, e, e2)
+                   /\ amap' = P!MapAdd(amap, e2, a, a2)
+                   /\ cmap' = P!MapAdd(cmap, <<e2, a>>, c, c2)
+                   /\ ok' = (ok /\ P!MapStepG(emap, 0, e, e2, Base, Digits)
+                                /\ P!MapStepG(amap, e2, a, a2, Base, Digits)
+                                /\ P!MapStepG(cmap, <<e2, a>>, c, c2, Base, Digits))
 Next == \E e \in Ecus, a \in Apids, c \in Ctids : Msg(e, a, c)
 Spec == Init /\ [][Next]_vars
 
-ContractHolds == ok
+ContractHolds == ok          \* within AND past the capacity (documented overflow)
 Functional(map) == \A p, q \in map : (p[1] = q[1] /\ p[2] = q[2]) => p[3] = q[3]
 Injective(map) == \A p, q \in map : (p[1] = q[1] /\ p[3] = q[3]) => p[2] = q[2]
 TablesOK == /\ Functional(emap) /\ Functional(amap) /\ Functional(cmap)
             /\ (WithinCap(emap) => Injective(emap))
             /\ (WithinCap(amap) => Injective(amap))
             /\ (WithinCap(cmap) => Injective(cmap))
+\* non-vacuity of the overflow part: some behaviour really exceeds the capacity (checked as a violated "invariant" is not
+\* possible in the same run, so the config simply makes the bounds large enough: 4 ECUs > capacity 2)
 =============================================================================
